@@ -109,6 +109,10 @@ func runWriterE2E(c WriterE2ECase) (*writerE2EStats, error) {
 				if err == nil {
 					g.seqs = append(g.seqs, seq)
 					st.Accepted++
+				} else {
+					// refused (queue full): the number is used again, so that what is sent has no gap - over UDP the
+					// server's receiver holds everything behind a gap back in its reorder buffer
+					seq--
 				}
 				if i%4 == 3 {
 					time.Sleep(200 * time.Microsecond) // (a queue of 8 must not overflow just because the harness writes in a burst)
